@@ -817,7 +817,7 @@ func c10Inputs(l *Lab, cfg c10Cfg, rnd *rand.Rand) []c10Input {
 				w.rawSend(rec, BuildRequest("RDG_OUT_DATA", GatewayPath, Hdr{{"Authorization", "Negotiate " + B64(raw)}}, nil))
 			})
 		}
-		for i, cred := range []string{"", ":", "a", "alice", "alice:", ":pw", "alice:pw:alice", strings.Repeat("u", 5000) + ":" + strings.Repeat("p", 5000), "al\x00ice:pw", "ä:ö"} {
+		for i, cred := range []string{"", ":", "a", "alice", "alice:", ":pw", "alice:pw:alice", strings.Repeat("u", 5000) + ":" + strings.Repeat("p", 5000), "al\x00ice:pw", "ä:ö", "adm\xff\xfein:secret", "admin:se\xc3cret", "\xc0\xaf:\xc0\xaf", "user:\xed\xa0\x80", string(GenStream(4, 40)) + ":" + string(GenStream(5, 40))} {
 			cred := cred
 			add("basic-credentials", fmt.Sprintf("basic credentials %d", i), func(w *c10World, rec *c10Rec) {
 				w.rawSend(rec, BuildRequest("RDG_OUT_DATA", GatewayPath, Hdr{{"Authorization", "Basic " + B64([]byte(cred))}}, nil))
